@@ -69,8 +69,40 @@ def norm_reason(reason):
     return reason
 
 
+def directed():
+    """Histories for the situations the properties name explicitly and random generation reaches rarely:
+    restore -> continue -> restore (C19), more than 200 / 300 outputs on one keyset (C19), a wallet holding proofs with and
+    without DLEQ data (restored + newly minted) spending both (C08), remove-spent / reclaim around pending melts (C17)."""
+    two = [{"name": "ma", "fee": 100, "policy": "min1"}, {"name": "mb", "fee": 0, "policy": "min1"}]
+    ws = [{"name": "w1", "default": "ma"}, {"name": "w2", "default": "ma"}, {"name": "w3", "default": "mb"}]
+    hs = []
+    hs.append({"mints": two, "wallets": ws, "ops": [
+        {"op": "mint", "w": "w1", "m": "ma", "amt": 64}, {"op": "restore", "w": "w1"}, {"op": "mint", "w": "w1", "m": "ma", "amt": 7},
+        {"op": "sendlocked", "w": "w1", "m": "ma", "amt": 60, "to": "w2"}, {"op": "mint", "w": "w1", "m": "ma", "amt": 21},
+        {"op": "melt", "w": "w1", "m": "ma", "amt": 20}, {"op": "send", "w": "w1", "m": "ma", "amt": 3, "fees": True},
+        {"op": "restore", "w": "w1"}, {"op": "mint", "w": "w1", "m": "ma", "amt": 5}, {"op": "receive", "w": "w2", "tok": "t1"},
+        {"op": "restore", "w": "w1"}, {"op": "restore", "w": "w2"}]})
+    hs.append({"mints": two, "wallets": ws, "ops": [
+        {"op": "mint", "w": "w2", "m": "ma", "amt": 100}, {"op": "melt", "w": "w2", "m": "ma", "amt": 20, "pay": ["pending"]},
+        {"op": "removespent", "w": "w2"}, {"op": "reclaim", "w": "w2"}, {"op": "checkmelt", "w": "w2", "status": ["failed"]},
+        {"op": "melt", "w": "w2", "m": "ma", "amt": 30, "pay": ["pending"]}, {"op": "removespent", "w": "w2"},
+        {"op": "checkmelt", "w": "w2", "status": ["succeeded"]}, {"op": "send", "w": "w2", "m": "ma", "amt": 9},
+        {"op": "removespent", "w": "w2"}, {"op": "reclaim", "w": "w2"}, {"op": "restore", "w": "w2"}]})
+    # many outputs on one keyset: every mint of 255 makes 8 proofs; sends and receives add change outputs
+    many = []
+    for k in range(30):
+        many.append({"op": "mint", "w": "w1", "m": "ma", "amt": 255})
+        if k % 5 == 4:
+            many.append({"op": "send", "w": "w1", "m": "ma", "amt": 37 + k, "fees": True})
+    many += [{"op": "restore", "w": "w1"}, {"op": "mint", "w": "w1", "m": "ma", "amt": 255}, {"op": "send", "w": "w1", "m": "ma", "amt": 100},
+             {"op": "restore", "w": "w1"}, {"op": "rotate", "m": "ma", "fee": 0}, {"op": "mint", "w": "w1", "m": "ma", "amt": 31},
+             {"op": "restore", "w": "w1"}]
+    hs.append({"mints": two[:1], "wallets": ws[:2], "ops": many})
+    return hs
+
+
 def check(prop, profile=None, num=None, max_ops=18, fees=(0, 100, 1000), two_mints=True, given=None, level="model_checking", rule=None,
-          extra_cov=None, mint_amts=(5, 21, 64, 100, 333), collect=False):
+          extra_cov=None, mint_amts=(5, 21, 64, 100, 333), collect=False, with_directed=True):
     t0 = time.time()
     d = rundir("%s_%s" % (prop, tier()))
     sd = spec_copy(d)
@@ -80,6 +112,11 @@ def check(prop, profile=None, num=None, max_ops=18, fees=(0, 100, 1000), two_min
         histories, gen_dt, consts = given, 0.0, {}
     else:
         histories, gen_dt, consts = generate(sd, num, max_ops, profile or ALL, fees, two_mints, mint_amts)
+        if with_directed:
+            for h in directed():
+                h = dict(h)
+                h["id"] = len(histories) + 1
+                histories.append(h)
     trace, nh, nev = run_whist(d, histories)
     res = monitor(sd, trace)
     if res["lines"] != nev:
